@@ -80,7 +80,7 @@ func expectedTrace(sc *specCtx, f *feedInfo) ([]traceEv, string) {
 	stack := []int{0}
 	pos := 0
 	la := look(0)
-	for steps := 0; steps < 20000; steps++ {
+	for steps := 0; steps < 40*len(f.Toks)+20000; steps++ {
 		s := stack[len(stack)-1]
 		act := a.GTable[s][la]
 		switch {
@@ -116,6 +116,7 @@ func execC17(ctx *Ctx, in *Input) *Result {
 	sz := sizesFor(ctx)
 	sz.Exhaustive /= 3
 	sz.Mutants /= 2
+	sz.NoVeryLong = true
 	pb, ok := prepareBatch(ctx, res, in, wl.GoVariants, wl.EpiFull, sz)
 	defer pb.cleanup()
 	if !ok {
@@ -226,7 +227,7 @@ func init() {
 	gen := genParsers("C17", false)
 	Register(&Checker{
 		ID: "C17", Level: "exploration", Engine: "B",
-		Rule: "case = batch of grammars x the four Go variants under one map-order schedule; every input of the C01 input set is parsed with IsTrace on (stdout captured per parse). The printed lines must be, in order, exactly the run of a reference LR driver over the tables yaccgo built in the same generation (each shift: symbol and state pushed; each reduction: lookahead, rule text, goto state, followed by the push of the left-hand side), and the reductions must be those the semantic actions recorded. distinct_nontrivial = distinct grammars traced.",
+		Rule:     "case = batch of grammars x the four Go variants under one map-order schedule; every input of the C01 input set is parsed with IsTrace on (stdout captured per parse). The printed lines must be, in order, exactly the run of a reference LR driver over the tables yaccgo built in the same generation (each shift: symbol and state pushed; each reduction: lookahead, rule text, goto state, followed by the push of the left-hand side), and the reductions must be those the semantic actions recorded. distinct_nontrivial = distinct grammars traced.",
 		NumCases: func(ctx *Ctx) int { return fixedCases(ctx, 32, 1200) },
 		Gen: func(ctx *Ctx, i int) *Input {
 			in := gen(ctx, i)
